@@ -240,8 +240,9 @@ def pcDelta_grouped(df, by, seq_columns, **kwargs):
     def pcDelta_within_group(dfg):
         index = kwargs.get("bins")
         if isinstance(index, int):
+            # scalar bins (bins=0: exact coincidence probability): a single value per group
             index = [index]
-        if not index is None:
+        elif not index is None:
             index = index[:-1]
         return pd.Series(pcDelta(dfg[seq_columns], **kwargs), name="Delta", index=index)
 
